@@ -3,7 +3,7 @@
 From Coq Require Import List ZArith NArith Bool.
 From Coq.Strings Require Import Byte.
 Import ListNotations.
-From BWTable Require Import Cells Fmt StrOrder Sort SortProofs SortSpec Limit Reduce ReduceSpec GroupProofs Expr ExprSpec.
+From BWTable Require Import Cells Fmt StrOrder Sort SortProofs SortSpec Limit Reduce ReduceSpec GroupProofs Expr ExprSpec Exec.
 Open Scope Z_scope.
 
 (* the repairs applied to /repo so far (the model follows the CURRENT tree) *)
@@ -420,5 +420,41 @@ Definition e2e13_verdict (ts : list tok) (bs : list binding) (base : list row) (
        | Ok e => if spec_disagrees e base then 4%N else 0%N
        | _ => 0%N
        end.
+
+(* ---- all clauses together: the tail of Execute (Exec.execute_tail) ------------------------------------------------- *)
+(* outcome: 0 ok, 1 rejected at parse time, 2 execution error, 3 panic *)
+Definition tail_verdict (group_by : list binding) (projs : list proj) (keys : list skey) (having_toks : list tok)
+    (lim : option Z) (bs : list binding) (base : list row) (outcome : N) (obs : list binding) (out : list row) : N :=
+  let outs := map proj_out projs in
+  let cfg : res sort_cfg :=
+    match keys with
+    | [] => Ok None
+    | _ => match order_by_checker (fun l => l) outs keys with
+           | inr c => Ok (Some c)
+           | inl _ => Err EBuild
+           end
+    end in
+  let hav : res (option expr) :=
+    match having_toks with
+    | [] => Ok None
+    | _ => match new_evaluator having_toks with
+           | Ok e => Ok (Some e)
+           | Err x => Err x | Panic s => Panic s | Fatal => Fatal
+           end
+    end in
+  let agree :=
+    match cfg, hav with
+    | Ok c, Ok h =>
+        match execute_tail_with (@go_isort row) cur_fixes (mkTail group_by projs c h lim) (mkTable bs base), outcome with
+        | Ok t, 0%N => bindings_eqb (t_bindings t) obs &&
+                       (if Nat.leb (length base) 12 then rows_agree obs (t_rows t) out
+                        else multiset_agree obs (t_rows t) out)
+        | Err _, 2%N => true
+        | Panic _, 3%N => true
+        | _, _ => false
+        end
+    | _, _ => N.eqb outcome 1
+    end in
+  verdict (rows_fmt_ok base) agree false.
 
 Definition verdicts {A} (f : A -> N) (l : list A) : list N := map f l.
